@@ -123,19 +123,27 @@ def system_case(case):
     sim = Simulation(ps, random_seed=case["seed"])
     prev = {}
     stat = {"rep": 0, "k": 0}
-    line_names = {l.name for l in ps.lines}
+    line_names = {l.name for l in ps.lines} | {il.name for il in getattr(ps, "ict_lines", [])}
+    ict_names = {il.name for il in getattr(ps, "ict_lines", [])}
+    for il in getattr(ps, "ict_lines", []):
+        il.fail_rate_per_year = case["dev_rate"]
+        il.repair_time_dist = StatDist(StatDistType.UNIFORM_FLOAT, UniformParameters(min_val=2.0, max_val=6.0))
     def snap():
         out = {}
         for d in devs:
             out[d.name] = (d.state.name, d.remaining_repair_time.get_hours())
         for l in ps.lines:
             out[l.name] = ("REPAIR" if l.failed else "OK", l.remaining_outage_time.get_hours())
+        for il in getattr(ps, "ict_lines", []):
+            out[il.name] = ("REPAIR" if il.failed else "OK", il.remaining_outage_time.get_hours())
         return out
     def close():
         cur = snap()
         for name, (st, rem) in cur.items():
             if rem < -1e-12:
                 viols.append(("system.rem-negative", f"increment {stat['k']}: remaining repair time of {name} is {rem} h"))
+            if st == "REPAIR" and rem <= 1e-12 and name in ict_names and prev.get(name, ("OK", 0))[0] == "REPAIR" and prev[name][1] <= 1e-12:
+                viols.append(("system.not-returned", f"increment {stat['k']}: communication line {name} is still failed although its remaining outage time was used up an increment ago"))
             if name in prev and prev[name][0] == "REPAIR" and st == "REPAIR":
                 stat["rep"] += 1
                 drop = prev[name][1] - rem
@@ -475,6 +483,11 @@ def gen(rng, n):
         spec["mg"]["discon"] = True; spec["mg"]["n"] = rng.choice([2, 3])
         if q % 2 == 0:
             spec["mg"]["listed_twice"] = True
+        else:
+            # a communication network whose lines fail often (overlapping outages in one network)
+            ps_ = net.build(dict(spec, exact=True))
+            names = [f"S{l.name}" for l in ps_.lines] + [f"I{d.name}" for d in ps_.disconnectors]
+            spec["ctrl"]["ict"] = {"n": len(names) + 1, "lines": [[0, i + 1] for i in range(len(names))], "attach": {nm: i + 1 for i, nm in enumerate(names)}}
         cases.append({"kind": "system", "spec": spec, "n_inc": 60, "dt": rng.choice([1.0, 0.5]), "seed": rng.randint(0, 10 ** 6),
                       "line_rate": rng.choice([1500.0, 3000.0]), "dev_rate": rng.choice([3000.0, 6000.0]), "dev_rep": rng.choice([3.0, 4.0])})
     for q in range(max(4, n // 20)):
